@@ -153,10 +153,10 @@ func (r *popRun) violateShape(sh c09Shape, clause, msg string) {
 
 func c09Shapes(c *Ctx) {
 	ns := []int{8}
-	stolen := []int{0, 2, 5, 10}
+	stolen := []int{0, 2, 3, 5, 10}
 	if !c.Quick() {
 		ns = []int{5, 8, 12}
-		stolen = []int{0, 1, 2, 5, 10, 12}
+		stolen = []int{0, 1, 2, 3, 5, 10, 12}
 	}
 	type comp struct {
 		sizes []int
